@@ -442,6 +442,24 @@ func runC16(w *c16World) ([]string, error) {
 				}
 			}()
 		}
+		// a control that does what the heartbeat module has to do - wake up every period, hand one write to the node and
+		// wait until it is taken: on a machine too busy for that, too few heartbeats mean nothing
+		control := 0
+		bw.Add(1)
+		go func() {
+			defer bw.Done()
+			tk := time.NewTicker(w.period)
+			defer tk.Stop()
+			for {
+				select {
+				case <-stopBusy:
+					return
+				case <-tk.C:
+					n.WriteMessageTo(nil, &common.MessageDebug{}) //nolint:errcheck
+					control++
+				}
+			}
+		}()
 		time.Sleep(12 * w.period)
 		close(stopBusy)
 		bw.Wait()
@@ -450,8 +468,8 @@ func runC16(w *c16World) ([]string, error) {
 			hbs, _, _, _ := count(p)
 			got := len(hbs) - busyBeats[c]
 			due := int(busyFor / w.period)
-			if got < due/2-1 && !stalls.StalledBetweenOver(busyFrom, time.Now(), w.period/2) {
-				return nil, fmt.Errorf("channel %d: %d heartbeats in %v while the application was writing (period %v, %d were due): beats are skipped when the node is busy", c, got, busyFor, w.period, due)
+			if got < due/2-1 && control >= due*3/4 && !stalls.StalledBetweenOver(busyFrom, time.Now(), w.period/2) {
+				return nil, fmt.Errorf("channel %d: %d heartbeats in %v while the application was writing (period %v, %d were due; a control goroutine doing one write per period completed %d rounds): beats are skipped when the node is busy", c, got, busyFor, w.period, due, control)
 			}
 		}
 	}
